@@ -1,9 +1,12 @@
-(* C10 — the ternary `#[ds(eqrel)]` provider r(K, T, T).
-   (1) lifted: per-key map of the proved binary provider with a merge that keeps every key's versions
-       satisfies P1-P5 with the per-key equivalence closure (instance of Byods/Ternary.v);
-   (2) real: EqRel2IndCommon as written (EqRelModel.v t_merge / t_merge_protocol) does NOT: computed witnesses. *)
+(* C10 — the ternary `#[ds(eqrel)]` provider r(K, T, T): EqRel2IndCommon (per-key map of binary structures +
+   reverse map) as it is after the repairs 0f251c7, 539a1e3, 187eab3, c6810ff, modelled in EqRelModel.v, meets
+   the provider laws P1-P5 with the per-key equivalence closure, for every history, in every view:
+   [0,1,2], none, [0], [0,1], [0,2] (keyed by the first column) and [1], [2], [1,2] (through the reverse map).
+   Route: every key of the real structure is, step for step, the proved binary provider run on the key's
+   projection of the history (the per-key lifting of Byods/Ternary.v: hproj, ghost_proj, cl3). *)
 From Coq Require Import List Arith Bool ZArith Lia.
 From AV Require Import Byods.EqRelModel.
+From AV Require Import Byods.EqRelUF.
 From AV Require Import Byods.Closure.
 From AV Require Import Byods.Provider.
 From AV Require Import Byods.EqRelProofs.
@@ -12,19 +15,189 @@ Import ListNotations.
 Open Scope Z_scope.
 
 Definition T3z : Type := T3 T2.
-(* equivalence closure per first column *)
 Definition eqv3 : list T3z -> list T3z := cl3 T2 eqv.
-
-Definition eqrel_ternary_lifted : provider T3z := lift T2 eqrel_binary.
-
 Theorem eqv3_closure_op : closure_op T3z eqv3.
 Proof. apply cl3_closure_op. exact eqv_closure_op. Qed.
+
+(* the generic lifting instantiated: per-key map of binary providers with a merge applied to every key *)
+Definition eqrel_ternary_lifted : provider T3z := lift T2 eqrel_binary.
 Theorem eqrel_ternary_lifted_ok : provider_ok T3z eqrel_ternary_lifted eqv3.
 Proof. apply lift_provider_ok; [exact eqv_closure_op|exact eqrel_binary_provider_ok]. Qed.
 
+(* ------------------------------------------------------------------ association lists *)
+Definition keys {V} (m : list (Z * V)) : list Z := map fst m.
+Definition gd := get_or_default.
+
+Lemma zget_none_keys {V} k (m : list (Z * V)) : zget k m = None <-> ~ In k (keys m).
+Proof.
+  induction m as [|[k' v] m IH]; cbn [zget keys map fst In]; [tauto|].
+  destruct (Z.eqb_spec k k') as [->|Hne].
+  - split; [discriminate|]. intros H. exfalso. apply H. left. reflexivity.
+  - rewrite IH. unfold keys. split; [intros H [E|H']; [congruence|contradiction]|intros H H'; apply H; right; exact H'].
+Qed.
+Lemma zget_some_in {V} k (m : list (Z * V)) v : zget k m = Some v -> In (k, v) m.
+Proof.
+  induction m as [|[k' v'] m IH]; cbn [zget]; [discriminate|].
+  destruct (Z.eqb_spec k k') as [->|Hne]; [intros [= ->]; left; reflexivity|intros H; right; apply IH; exact H].
+Qed.
+Lemma in_keys_some {V} k (m : list (Z * V)) : In k (keys m) <-> exists v, zget k m = Some v.
+Proof.
+  split.
+  - intros H. destruct (zget k m) as [v|] eqn:E; [exists v; reflexivity|]. apply zget_none_keys in E. contradiction.
+  - intros [v H] . destruct (in_dec Z.eq_dec k (keys m)) as [Hi|Hn]; [exact Hi|]. apply zget_none_keys in Hn. congruence.
+Qed.
+Lemma nodup_in_zget {V} k (m : list (Z * V)) v : NoDup (keys m) -> In (k, v) m -> zget k m = Some v.
+Proof.
+  induction m as [|[k' v'] m IH]; cbn [keys map fst zget In]; [intros _ []|].
+  intros Hn [E|Hin].
+  - injection E as -> ->. rewrite Z.eqb_refl. reflexivity.
+  - inversion Hn as [|a l Hk Hn']; subst. destruct (Z.eqb_spec k k') as [->|_].
+    + exfalso. apply Hk. apply in_map_iff. exists (k', v). split; [reflexivity|exact Hin].
+    + apply IH; assumption.
+Qed.
+Lemma keys_zset {V} k (v : V) m j : In j (keys (zset k v m)) <-> j = k \/ In j (keys m).
+Proof. rewrite !in_keys_some. rewrite zget_zset. destruct (Z.eqb_spec j k) as [->|Hne]; split; eauto; intros [H|H]; [congruence|exact H]. Qed.
+Lemma nodup_zset {V} k (v : V) m : NoDup (keys m) -> NoDup (keys (zset k v m)).
+Proof.
+  induction m as [|[k' v'] m IH]; cbn [zset keys map fst]; intros Hn.
+  - constructor; [intros []|constructor].
+  - destruct (Z.eqb_spec k k') as [->|Hne]; cbn [map fst]; [exact Hn|].
+    inversion Hn as [|a l Hk Hn']; subst. constructor; [|apply IH; exact Hn'].
+    intros H. apply (keys_zset k v m k') in H. destruct H as [H|H]; [congruence|contradiction].
+Qed.
+Lemma zget_zrem {V} k (m : list (Z * V)) j : zget j (zrem k m) = if Z.eqb j k then None else zget j m.
+Proof.
+  unfold zrem. induction m as [|[k' v'] m IH]; cbn [filter fst zget]; [destruct (Z.eqb j k); reflexivity|].
+  destruct (Z.eqb_spec k k') as [->|Hne]; cbn [negb].
+  - rewrite IH. destruct (Z.eqb_spec j k'); reflexivity.
+  - cbn [zget]. rewrite IH. destruct (Z.eqb_spec j k') as [->|_]; [|reflexivity].
+    destruct (Z.eqb_spec k' k); [congruence|reflexivity].
+Qed.
+Lemma nodup_zrem {V} k (m : list (Z * V)) : NoDup (keys m) -> NoDup (keys (zrem k m)).
+Proof.
+  unfold zrem. induction m as [|[k' v'] m IH]; cbn [filter fst keys map]; intros Hn; [constructor|].
+  inversion Hn as [|a l Hk Hn']; subst. destruct (negb (Z.eqb k k')); [|apply IH; exact Hn'].
+  cbn [map fst]. constructor; [|apply IH; exact Hn'].
+  intros H. apply Hk. apply in_map_iff in H. destruct H as [[a b] [E H]]. apply filter_In in H. cbn [fst] in E. subst.
+  apply in_map_iff. exists (k', b). split; [reflexivity|apply H].
+Qed.
+Lemma nodup_keys_nodup {V} (m : list (Z * V)) : NoDup (keys m) -> NoDup m.
+Proof.
+  induction m as [|[k v] m IH]; cbn [keys map fst]; intros Hn; [constructor|]. inversion Hn; subst.
+  constructor; [|apply IH; assumption]. intros H. apply H1. apply in_map_iff. exists (k, v). split; [reflexivity|exact H].
+Qed.
+Lemma gd_zset k v m j : gd j (zset k v m) = if Z.eqb j k then v else gd j m.
+Proof. unfold gd, get_or_default. rewrite zget_zset. destruct (Z.eqb j k); reflexivity. Qed.
+Lemma gd_none k m : zget k m = None -> gd k m = c_empty.
+Proof. unfold gd, get_or_default. intros ->. reflexivity. Qed.
+Lemma gd_some k m c : zget k m = Some c -> gd k m = c.
+Proof. unfold gd, get_or_default. intros ->. reflexivity. Qed.
+
+(* ------------------------------------------------------------------ the merge, key by key *)
+Definition bof (st : maps3) (k : Z) : bstate := mkB (gd k (m_n st)) (gd k (m_d st)) (gd k (m_t st)).
+
+Lemma step_keys_char : forall ks st, NoDup ks ->
+  forall j, (In j ks -> zget j (m_n (fold_left t_step_key ks st)) = None
+                        /\ zget j (m_d (fold_left t_step_key ks st)) = Some (b_delta (b_merge (bof st j)))
+                        /\ zget j (m_t (fold_left t_step_key ks st)) = Some (b_total (b_merge (bof st j))))
+         /\ (~ In j ks -> zget j (m_n (fold_left t_step_key ks st)) = zget j (m_n st)
+                          /\ zget j (m_d (fold_left t_step_key ks st)) = zget j (m_d st)
+                          /\ zget j (m_t (fold_left t_step_key ks st)) = zget j (m_t st)).
+Proof.
+  induction ks as [|k ks IH]; intros st Hn j; cbn [fold_left].
+  - split; [intros []|intros _; repeat split].
+  - inversion Hn as [|a l Hk Hn']; subst. specialize (IH (t_step_key st k) Hn' j). destruct IH as [IH1 IH2].
+    assert (Hsame : j <> k -> bof (t_step_key st k) j = bof st j).
+    { intros Hne. unfold bof, t_step_key. cbn [m_n m_d m_t]. unfold gd at 1, get_or_default. rewrite zget_zrem, !gd_zset.
+      destruct (Z.eqb_spec j k); [contradiction|]. reflexivity. }
+    split.
+    + intros [<-|Hin].
+      * destruct (IH2 Hk) as [E1 [E2 E3]]. rewrite E1, E2, E3. unfold t_step_key. cbn [m_n m_d m_t].
+        rewrite zget_zrem, !zget_zset, Z.eqb_refl. repeat split.
+      * assert (j <> k) by (intros ->; contradiction). rewrite <- (Hsame H). apply IH1. exact Hin.
+    + intros Hnot. assert (Hjk : j <> k) by (intros ->; apply Hnot; left; reflexivity).
+      destruct IH2 as [E1 [E2 E3]]; [intros H; apply Hnot; right; exact H|]. rewrite E1, E2, E3.
+      unfold t_step_key. cbn [m_n m_d m_t]. rewrite zget_zrem, !zget_zset. destruct (Z.eqb_spec j k); [contradiction|]. repeat split.
+Qed.
+Lemma step_keys_nodup : forall ks st, NoDup (keys (m_d st)) -> NoDup (keys (m_t st)) ->
+  NoDup (keys (m_d (fold_left t_step_key ks st))) /\ NoDup (keys (m_t (fold_left t_step_key ks st))).
+Proof.
+  induction ks as [|k ks IH]; intros st H1 H2; cbn [fold_left]; [split; assumption|].
+  apply IH; unfold t_step_key; cbn [m_d m_t]; apply nodup_zset; assumption.
+Qed.
+Lemma merge_keys_in nm dm j : In j (t_merge_keys_of nm dm) <-> In j (keys dm) \/ In j (keys nm).
+Proof.
+  unfold t_merge_keys_of. rewrite in_app_iff, filter_In, negb_true_iff, zmem_false. fold (keys dm). fold (keys nm).
+  destruct (in_dec Z.eq_dec j (keys dm)); tauto.
+Qed.
+Lemma merge_keys_nodup (nm dm : list (Z * eqc)) : NoDup (keys nm) -> NoDup (keys dm) -> NoDup (t_merge_keys_of nm dm).
+Proof.
+  intros Hn Hd. unfold t_merge_keys_of. apply NoDup_app_disj; [exact Hd|apply NoDup_filter; exact Hn|].
+  intros b Hb Hf. apply filter_In in Hf. destruct Hf as [_ Hf]. apply negb_true_iff, zmem_false in Hf. contradiction.
+Qed.
+
+(* ------------------------------------------------------------------ reverse maps *)
+Definition rlook (x : Z) (r : list (Z * list Z)) : list Z := match zget x r with Some l => l | None => [] end.
+(* every registered key satisfies P, and the sets are duplicate free *)
+Definition rgood (r : list (Z * list Z)) (P : Z -> Prop) : Prop :=
+  forall x s, In (x, s) r -> NoDup s /\ forall k, In k s -> P k.
+
+Lemma zset_binding {V} k (v : V) m x s : In (x, s) (zset k v m) -> (x = k /\ s = v) \/ In (x, s) m.
+Proof.
+  induction m as [|[k' v'] m IH]; cbn [zset In].
+  - intros [E|[]]. injection E as <- <-. left. split; reflexivity.
+  - destruct (Z.eqb_spec k k') as [->|Hne]; cbn [In].
+    + intros [E|H]; [injection E as <- <-; left; split; reflexivity|right; right; exact H].
+    + intros [E|H]; [right; left; exact E|]. destruct (IH H) as [H1|H1]; [left; exact H1|right; right; exact H1].
+Qed.
+Lemma rlook_in x r k : In k (rlook x r) -> exists s, In (x, s) r /\ In k s.
+Proof. unfold rlook. destruct (zget x r) as [l|] eqn:E; [|intros []]. intros H. exists l. split; [apply zget_some_in; exact E|exact H]. Qed.
+
+Lemma rev_ins_look x k r x' k' : In k' (rlook x' (rev_ins x k r)) <-> (x' = x /\ k' = k) \/ In k' (rlook x' r).
+Proof.
+  unfold rev_ins, rlook. destruct (zget x r) as [ks|] eqn:E; rewrite zget_zset; destruct (Z.eqb_spec x' x) as [->|Hne].
+  - rewrite E, zins_spec. tauto.
+  - split; [intros H; right; exact H|intros [[H _]|H]; [contradiction|exact H]].
+  - rewrite E. cbn [In]. split; [intros [<-|[]]; left; split; reflexivity|intros [[_ ->]|[]]; left; reflexivity].
+  - split; [intros H; right; exact H|intros [[H _]|H]; [contradiction|exact H]].
+Qed.
+Lemma rev_ins_good x k r (P : Z -> Prop) : rgood r P -> P k -> rgood (rev_ins x k r) P.
+Proof.
+  intros G Pk x' s Hin. unfold rev_ins in Hin. destruct (zget x r) as [ks|] eqn:E; apply zset_binding in Hin; destruct Hin as [[-> ->]|Hin]; try exact (G _ _ Hin).
+  - destruct (G x ks (zget_some_in _ _ _ E)) as [Hn Hp]. split; [apply zins_nodup; exact Hn|].
+    intros k' Hk'. apply zins_spec in Hk'. destruct Hk' as [->|Hk']; [exact Pk|apply Hp; exact Hk'].
+  - split; [constructor; [intros []|constructor]|]. intros k' [<-|[]]. exact Pk.
+Qed.
+
+Lemma rev_move_mono : forall from to x k, In k (rlook x from) \/ In k (rlook x to) -> In k (rlook x (rev_move from to)).
+Proof.
+  unfold rev_move. induction from as [|[x0 s0] f IH]; intros to x k H; cbn [fold_left fst snd].
+  - destruct H as [H|H]; [unfold rlook in H; cbn in H; destruct H|exact H].
+  - apply IH. destruct (Z.eqb_spec x x0) as [->|Hne].
+    + right. unfold rlook in *. cbn [zget] in H. rewrite Z.eqb_refl in H.
+      destruct (zget x0 to) as [t0|] eqn:E; rewrite zget_zset, Z.eqb_refl.
+      * apply zunion_spec. tauto.
+      * destruct H as [H|[]]. exact H.
+    + unfold rlook in *. cbn [zget] in H. destruct (Z.eqb_spec x x0); [contradiction|].
+      destruct H as [H|H]; [left; exact H|right].
+      destruct (zget x0 to) as [t0|]; rewrite zget_zset; destruct (Z.eqb_spec x x0); try contradiction; exact H.
+Qed.
+Lemma rev_move_good (P : Z -> Prop) : forall from to, rgood from P -> rgood to P -> rgood (rev_move from to) P.
+Proof.
+  unfold rev_move. induction from as [|[x0 s0] f IH]; intros to Gf Gt; cbn [fold_left fst snd]; [exact Gt|].
+  apply IH; [intros x s H; exact (Gf x s (or_intror H))|].
+  destruct (Gf x0 s0 (or_introl eq_refl)) as [Hn0 Hp0].
+  intros x s Hin. destruct (zget x0 to) as [t0|] eqn:E; apply zset_binding in Hin; destruct Hin as [[-> ->]|Hin]; try exact (Gt _ _ Hin).
+  - destruct (Gt x0 t0 (zget_some_in _ _ _ E)) as [Hn Hp]. split; [apply zunion_nodup; exact Hn|].
+    intros k Hk. apply zunion_spec in Hk. destruct Hk as [Hk|Hk]; [apply Hp|apply Hp0]; exact Hk.
+  - split; assumption.
+Qed.
+Lemma rgood_weaken r (P Q : Z -> Prop) : (forall k, P k -> Q k) -> rgood r P -> rgood r Q.
+Proof. intros H G x s Hin. destruct (G x s Hin) as [Hn Hp]. split; [exact Hn|]. intros k Hk. apply H, Hp, Hk. Qed.
+
 (* ------------------------------------------------------------------ the real structure as a provider *)
-Inductive tview := TVFull (k x y : Z) | TVNone | TV0 (k : Z) | TV01 (k x : Z) | TV02 (k y : Z) | TV1 (x : Z) | TV12 (x y : Z).
-Inductive tix := TIFull | TINone | TI0 | TI01 | TI02 | TI1 | TI12.
+Inductive tview := TVFull (k x y : Z) | TVNone | TV0 (k : Z) | TV01 (k x : Z) | TV02 (k y : Z) | TV1 (x : Z) | TV2 (y : Z) | TV12 (x y : Z).
+Inductive tix := TIFull | TINone | TI0 | TI01 | TI02 | TI1 | TI2 | TI12.
 Definition tup (t : Z * Z * Z) : T3z := (fst (fst t), (snd (fst t), snd t)).
 Definition tver (s : tstate) (v : ver) : eq2 := match v with VTotal => ts_total s | VDelta => ts_delta s end.
 Definition tsel (v : tview) (t : T3z) : bool :=
@@ -36,11 +209,14 @@ Definition tsel (v : tview) (t : T3z) : bool :=
   | TV01 k' x' => Z.eqb k k' && Z.eqb x x'
   | TV02 k' y' => Z.eqb k k' && Z.eqb y y'
   | TV1 x' => Z.eqb x x'
+  | TV2 y' => Z.eqb y y'
   | TV12 x' y' => Z.eqb x x' && Z.eqb y y'
   end.
 Definition tix_of (v : tview) : tix :=
-  match v with TVFull _ _ _ => TIFull | TVNone => TINone | TV0 _ => TI0 | TV01 _ _ => TI01 | TV02 _ _ => TI02 | TV1 _ => TI1 | TV12 _ _ => TI12 end.
-(* a panic while reading (Option::unwrap on None in the reverse-map views) serves nothing *)
+  match v with TVFull _ _ _ => TIFull | TVNone => TINone | TV0 _ => TI0 | TV01 _ _ => TI01 | TV02 _ _ => TI02
+             | TV1 _ => TI1 | TV2 _ => TI2 | TV12 _ _ => TI12 end.
+(* index_get / iter_all with the values rebuilt into full tuples; a panic (Option::unwrap on None in the reverse-map
+   views) would serve nothing — eqrel_ternary_never_panics shows it cannot happen *)
 Definition tget (s : tstate) (v : ver) (vk : tview) : option (list T3z) :=
   let t := tver s v in
   match vk with
@@ -50,6 +226,7 @@ Definition tget (s : tstate) (v : ver) (vk : tview) : option (list T3z) :=
   | TV01 k x => option_map (map (fun y => (k, (x, y)))) (tv_ind01_get t k x)
   | TV02 k y => option_map (map (fun x => (k, (x, y)))) (tv_ind01_get t k y)
   | TV1 x => match tv_ind1_get t x with Some (Ok l) => Some (map (fun ky => (fst ky, (x, snd ky))) l) | _ => None end
+  | TV2 y => match tv_ind1_get t y with Some (Ok l) => Some (map (fun kx => (fst kx, (snd kx, y))) l) | _ => None end
   | TV12 x y => match tv_ind12_get t x y with Some (Ok l) => Some (map (fun k => (k, (x, y))) l) | _ => None end
   end.
 Definition tall (s : tstate) (v : ver) (ix : tix) : list (tview * list T3z) :=
@@ -63,70 +240,503 @@ Definition tall (s : tstate) (v : ver) (ix : tix) : list (tview * list T3z) :=
   | TI1 => match tv_ind1_all t with
            | Ok l => map (fun e => (TV1 (fst e), map (fun ky => (fst ky, (fst e, snd ky))) (snd e))) l
            | Panic => [] end
+  | TI2 => match tv_ind1_all t with
+           | Ok l => map (fun e => (TV2 (fst e), map (fun kx => (fst kx, (snd kx, fst e))) (snd e))) l
+           | Panic => [] end
   | TI12 => map (fun e => (TV12 (fst (fst e)) (snd (fst e)), map (fun k => (k, fst e)) (snd e))) (tv_ind12_all t)
   end.
 Definition tins (s : tstate) (t : T3z) : tstate * bool :=
-  let '(n, b) := t_insert (ts_new s) (fst t) (fst (snd t)) (snd (snd t)) in (mkTS n (ts_delta s) (ts_total s), b).
+  let r := t_insert (ts_new s) (fst t) (fst (snd t)) (snd (snd t)) in (mkTS (fst r) (ts_delta s) (ts_total s), snd r).
 
-(* protocol = true: driven as generated code does (the full-index write view merges a second time);
-   protocol = false: the merge of the common structure alone *)
-Definition eqrel_ternary_real (protocol : bool) : provider T3z :=
-  {| St := tstate; p_init := t_init; p_ins := tins;
-     p_merge := if protocol then t_merge_protocol else t_merge; p_restart := t_restart;
+(* generated code: one merge of the common structure per iteration (the index write views are no-ops) *)
+Definition eqrel_ternary : provider T3z :=
+  {| St := tstate; p_init := t_init; p_ins := tins; p_merge := t_merge_protocol; p_restart := t_restart;
      p_read := fun s v => map tup (t_iter_all_added (tver s v));
      p_contains := fun s v t => t_contains (tver s v) (fst t) (fst (snd t)) (snd (snd t));
      View := tview; Ix := tix; p_get := tget; p_all := tall; v_sel := tsel; v_ix := tix_of |}.
 
-(* ------------------------------------------------------------------ witnesses *)
-Ltac in_list := vm_compute; repeat (first [left; reflexivity | right]).
-Ltac notin_list H := vm_compute in H; repeat (destruct H as [H|H]; [discriminate H|]); try exact H.
+(* ------------------------------------------------------------------ invariant: every key is the binary provider *)
+Definition ksb (s : tstate) (k : Z) : bstate :=
+  mkB (gd k (t_map (ts_new s))) (gd k (t_map (ts_delta s))) (gd k (t_map (ts_total s))).
+Definition ment3 (k : Z) (g : list T3z) (x : Z) : Prop := In x (mentioned (proj T2 k g)).
 
-(* F1: the merge as written drops the merged delta of a key that is in delta and in new: the fact (0,1,2),
-   inserted for key 0 one round after (0,0,1), is served neither by total nor by delta (law P2) *)
-Definition h_f1 : list (pop T3z) := [PIns (0, (0, 1)); PMerge; PIns (0, (1, 2)); PMerge].
-Lemma f1_in_closure : In (0, (1, 2)) (eqv3 (g_td T3z (ghost_of T3z h_f1))).
-Proof. in_list. Qed.
-Lemma f1_not_served : ~ In (0, (1, 2)) (served T3z (eqrel_ternary_real false) (run T3z (eqrel_ternary_real false) h_f1)).
-Proof. intros H. notin_list H. Qed.
-Theorem ternary_merge_refuted : ~ provider_ok T3z (eqrel_ternary_real false) eqv3.
-Proof. intros H. destruct (ok_P2 T3z _ eqv3 H h_f1) as [_ H2]. exact (f1_not_served (H2 _ f1_in_closure)). Qed.
+Record tinv (h : list (pop T3z)) (s : tstate) : Prop := {
+  ti_nn : NoDup (keys (t_map (ts_new s)));
+  ti_nd : NoDup (keys (t_map (ts_delta s)));
+  ti_nt : NoDup (keys (t_map (ts_total s)));
+  ti_sim : forall k, ksb s k = run T2 eqrel_binary (hproj T2 k h);
+  ti_sub : forall k, In k (keys (t_map (ts_total s))) -> In k (keys (t_map (ts_delta s)));
+  ti_rn : forall k x, ment3 k (g_new T3z (ghost_of T3z h)) x -> In k (rlook x (t_rev (ts_new s)));
+  ti_rd : forall k x, ment3 k (g_td T3z (ghost_of T3z h)) x -> In k (rlook x (t_rev (ts_delta s)));
+  ti_rt : forall k x, ment3 k (g_t T3z (ghost_of T3z h)) x -> In k (rlook x (t_rev (ts_total s)));
+  ti_gn : rgood (t_rev (ts_new s)) (fun k => In k (keys (t_map (ts_new s))));
+  ti_gd : rgood (t_rev (ts_delta s)) (fun k => In k (keys (t_map (ts_delta s))));
+  ti_gt : rgood (t_rev (ts_total s)) (fun k => In k (keys (t_map (ts_total s)))) }.
 
-(* ... and after one more merge the tuple is not in total either: it is lost for good *)
-Lemma f1_lost : ~ In (0, (1, 2)) (p_read T3z (eqrel_ternary_real false) (run T3z (eqrel_ternary_real false) (h_f1 ++ [PMerge])) VTotal).
-Proof. intros H. notin_list H. Qed.
-
-(* generated code: the second merge through the full-index write view moves what was inserted straight to
-   total; (0,1,1) is readable from total although nothing was ever served as delta (law P3) *)
-Definition h_twice : list (pop T3z) := [PIns (0, (1, 1)); PMerge].
-Lemma twice_in_total : In (0, (1, 1)) (p_read T3z (eqrel_ternary_real true) (run T3z (eqrel_ternary_real true) h_twice) VTotal).
-Proof. in_list. Qed.
-Theorem ternary_protocol_refuted : ~ provider_ok T3z (eqrel_ternary_real true) eqv3.
+Lemma mentioned_app l1 l2 x : In x (mentioned (l1 ++ l2)) <-> In x (mentioned l1) \/ In x (mentioned l2).
 Proof.
-  intros H. destruct (ok_P3 T3z _ eqv3 H h_twice) as [H1 _]. specialize (H1 _ twice_in_total). vm_compute in H1. exact H1.
+  rewrite !mentioned_spec. split.
+  - intros [y [H|H]]; apply in_app_iff in H; destruct H as [H|H]; [left|right|left|right]; exists y; auto.
+  - intros [[y [H|H]]|[y [H|H]]]; exists y; [left|right|left|right]; apply in_or_app; auto.
 Qed.
-(* ... and facts for one key arriving in two rounds: the total of the key is replaced by the last round *)
-Definition h_twice2 : list (pop T3z) := [PIns (0, (0, 1)); PMerge; PIns (0, (1, 2)); PMerge; PMerge].
-Lemma twice_loses : In (0, (0, 1)) (eqv3 (g_td T3z (ghost_of T3z h_twice2)))
-  /\ ~ In (0, (0, 1)) (served T3z (eqrel_ternary_real true) (run T3z (eqrel_ternary_real true) h_twice2)).
-Proof. split; [in_list|intros H; notin_list H]. Qed.
-
-(* iter_all of the view on columns [1,2] serves (1,0,1): 0 and 1 are both mentioned under key 1 (2~0, 1~3) but
-   are not equivalent (law P4, soundness of iter_all) *)
-Definition h_i12 : list (pop T3z) := [PIns (1, (2, 0)); PIns (1, (1, 3)); PMerge; PMerge].
-Lemma i12_entry b : exists l, In (TV12 0 1, l) (p_all T3z (eqrel_ternary_real b) (run T3z (eqrel_ternary_real b) h_i12) VTotal TI12) /\ In (1, (0, 1)) l.
-Proof. exists [(1, (0, 1))]. split; [destruct b; in_list|left; reflexivity]. Qed.
-Lemma i12_not_served b : ~ In (1, (0, 1)) (served T3z (eqrel_ternary_real b) (run T3z (eqrel_ternary_real b) h_i12)).
-Proof. intros H. destruct b; notin_list H. Qed.
-Theorem ternary_i12_refuted b : ~ (forall h v ix vk l t, In (vk, l) (p_all T3z (eqrel_ternary_real b) (run T3z (eqrel_ternary_real b) h) v ix) -> In t l ->
-    v_ix T3z (eqrel_ternary_real b) vk = ix /\ v_sel T3z (eqrel_ternary_real b) vk t = true /\ In t (served T3z (eqrel_ternary_real b) (run T3z (eqrel_ternary_real b) h))).
+Lemma mentioned_one x y z : In z (mentioned [(x, y)]) <-> z = x \/ z = y.
 Proof.
-  intros H. destruct (i12_entry b) as [l [He Hl]]. destruct (H h_i12 VTotal TI12 _ l _ He Hl) as [_ [_ Hs]]. exact (i12_not_served b Hs).
+  rewrite mentioned_spec. cbn [In]. split.
+  - intros [w [[E|[]]|[E|[]]]]; injection E as -> ->; auto.
+  - intros [->| ->]; [exists y; left; left; reflexivity|exists x; right; left; reflexivity].
 Qed.
 
-(* the lifted provider serves the tuples the real one loses (same histories) *)
-Example lifted_keeps_f1 : In (0, (1, 2)) (served T3z eqrel_ternary_lifted (run T3z eqrel_ternary_lifted h_f1)).
-Proof. apply (ok_P2 T3z _ eqv3 eqrel_ternary_lifted_ok h_f1). exact f1_in_closure. Qed.
+Lemma t_insert_char t k x y :
+  fst (t_insert t k x y) = mkT (zset k (fst (c_insert (gd k (t_map t)) x y)) (t_map t)) (rev_ins y k (rev_ins x k (t_rev t)))
+  /\ snd (t_insert t k x y) = snd (c_insert (gd k (t_map t)) x y).
+Proof.
+  unfold t_insert, gd, get_or_default. destruct (zget k (t_map t)) as [c|].
+  - destruct (c_insert c x y) as [c' b]. split; reflexivity.
+  - split; reflexivity.
+Qed.
 
-Print Assumptions eqrel_ternary_lifted_ok.
-Print Assumptions ternary_merge_refuted.
-Print Assumptions ternary_protocol_refuted.
+Lemma b_merge_init : b_merge b_init = b_init.
+Proof. reflexivity. Qed.
+Lemma b_eta b : mkB (b_new b) (b_delta b) (b_total b) = b.
+Proof. destruct b; reflexivity. Qed.
+
+Lemma run3_snoc' (h : list (pop T3z)) o : run T3z eqrel_ternary (h ++ [o]) = step T3z eqrel_ternary (run T3z eqrel_ternary h) o.
+Proof. unfold run. rewrite fold_left_app. reflexivity. Qed.
+Lemma ghost3_snoc' (h : list (pop T3z)) o : ghost_of T3z (h ++ [o]) = ghost_step T3z (ghost_of T3z h) o.
+Proof. unfold ghost_of. rewrite fold_left_app. reflexivity. Qed.
+Lemma hproj_snoc k (h : list (pop T3z)) o : hproj T2 k (h ++ [o]) = hproj T2 k h ++ hproj1 T2 k o.
+Proof. rewrite hproj_app. unfold hproj at 2. cbn [flat_map]. rewrite app_nil_r. reflexivity. Qed.
+
+Lemma tinv_run h : tinv h (run T3z eqrel_ternary h).
+Proof.
+  induction h as [|o h IH] using rev_ind.
+  - constructor; cbn; try constructor; try (intros; contradiction).
+    all: try (intros k; reflexivity); try (intros k x H; exact H).
+  - rewrite run3_snoc'. destruct IH as [Inn Ind Int Isim Isub Irn Ird Irt Ign Igd Igt].
+    set (s := run T3z eqrel_ternary h) in *.
+    destruct o as [[k [x y]]| |]; cbn [step p_ins p_merge p_restart eqrel_ternary fst snd].
+    + (* insert *)
+      unfold tins. cbn [fst snd]. destruct (t_insert_char (ts_new s) k x y) as [E1 _]. rewrite E1.
+      constructor; cbn [ts_new ts_delta ts_total t_map t_rev]; try assumption.
+      * apply nodup_zset. exact Inn.
+      * intros j. rewrite hproj_snoc. cbn [hproj1 fst snd]. unfold ksb. cbn [ts_new ts_delta ts_total t_map].
+        rewrite gd_zset. rewrite Z.eqb_sym. destruct (Z.eqb_spec k j) as [->|Hne].
+        -- rewrite run_snoc'. cbn [step p_ins eqrel_binary fst snd]. rewrite <- Isim. unfold b_insert, ksb. cbn [b_new b_delta b_total].
+           destruct (c_insert (gd j (t_map (ts_new s))) x y) as [c' b]. reflexivity.
+        -- rewrite app_nil_r. apply Isim.
+      * intros j z. unfold ment3. rewrite ghost3_snoc'. cbn [ghost_step g_new]. rewrite proj_snoc.
+        rewrite !rev_ins_look. destruct (Z.eqb_spec k j) as [->|Hne].
+        -- rewrite mentioned_app, mentioned_one. intros [H|[->| ->]]; [right; right; apply Irn; exact H|right; left; split; reflexivity|left; split; reflexivity].
+        -- rewrite app_nil_r. intros H. right. right. apply Irn. exact H.
+      * intros j z. rewrite ghost3_snoc'. cbn [ghost_step g_td]. apply Ird.
+      * intros j z. rewrite ghost3_snoc'. cbn [ghost_step g_t]. apply Irt.
+      * apply rev_ins_good; [apply rev_ins_good|]; try (apply keys_zset; left; reflexivity).
+        eapply rgood_weaken; [|exact Ign]. intros j Hj. apply keys_zset. right. exact Hj.
+    + (* merge *)
+      unfold t_merge_protocol, t_merge.
+      set (ks := t_merge_keys_of (t_map (ts_new s)) (t_map (ts_delta s))).
+      set (st0 := mkM (t_map (ts_new s)) (t_map (ts_delta s)) (t_map (ts_total s))).
+      assert (Hks : NoDup ks) by (apply merge_keys_nodup; assumption).
+      pose proof (step_keys_char ks st0 Hks) as Hchar.
+      destruct (step_keys_nodup ks st0 Ind Int) as [Hnd' Hnt'].
+      assert (Hin_ks : forall j, In j ks <-> In j (keys (t_map (ts_delta s))) \/ In j (keys (t_map (ts_new s)))) by (intros j; apply merge_keys_in).
+      assert (Hkd : forall j, In j (keys (m_d (fold_left t_step_key ks st0))) <-> In j ks \/ In j (keys (t_map (ts_delta s)))).
+      { intros j. rewrite in_keys_some. destruct (in_dec Z.eq_dec j ks) as [Hi|Hn].
+        - destruct (proj1 (Hchar j) Hi) as [_ [E _]]. rewrite E. split; [intros _; left; exact Hi|intros _; eexists; reflexivity].
+        - destruct (proj2 (Hchar j) Hn) as [_ [E _]]. rewrite E. cbn [st0 m_d]. rewrite <- in_keys_some. tauto. }
+      assert (Hkt : forall j, In j (keys (m_t (fold_left t_step_key ks st0))) <-> In j ks \/ In j (keys (t_map (ts_total s)))).
+      { intros j. rewrite in_keys_some. destruct (in_dec Z.eq_dec j ks) as [Hi|Hn].
+        - destruct (proj1 (Hchar j) Hi) as [_ [_ E]]. rewrite E. split; [intros _; left; exact Hi|intros _; eexists; reflexivity].
+        - destruct (proj2 (Hchar j) Hn) as [_ [_ E]]. rewrite E. cbn [st0 m_t]. rewrite <- in_keys_some. tauto. }
+      constructor; cbn [ts_new ts_delta ts_total t_map t_rev]; try assumption.
+      * constructor.
+      * (* every key is merged by the binary merge *)
+        intros j. rewrite hproj_snoc. cbn [hproj1]. rewrite run_snoc'. cbn [step p_merge eqrel_binary]. rewrite <- Isim.
+        unfold ksb at 1. cbn [ts_new ts_delta ts_total t_map]. destruct (in_dec Z.eq_dec j ks) as [Hi|Hn].
+        -- destruct (proj1 (Hchar j) Hi) as [_ [E2 E3]]. rewrite (gd_some _ _ _ E2), (gd_some _ _ _ E3).
+           change (bof st0 j) with (ksb s j).
+           assert (Hnew : b_new (b_merge (ksb s j)) = c_empty).
+           { unfold b_merge. cbn [b_new]. rewrite Isim. rewrite (bi_nold _ _ (inv (hproj T2 j h))). reflexivity. }
+           change (gd j []) with c_empty. rewrite <- Hnew. apply b_eta.
+        -- destruct (proj2 (Hchar j) Hn) as [_ [E2 E3]]. cbn [st0 m_d m_t] in E2, E3.
+           assert (Hd0 : zget j (t_map (ts_delta s)) = None) by (apply zget_none_keys; intros H; apply Hn, Hin_ks; left; exact H).
+           assert (Hn0 : zget j (t_map (ts_new s)) = None) by (apply zget_none_keys; intros H; apply Hn, Hin_ks; right; exact H).
+           assert (Ht0 : zget j (t_map (ts_total s)) = None) by (apply zget_none_keys; intros H; apply Hn, Hin_ks; left; apply Isub; exact H).
+           unfold ksb. rewrite (gd_none _ _ Hd0), (gd_none _ _ Hn0), (gd_none _ _ Ht0).
+           unfold gd, get_or_default. rewrite E2, E3, Hd0, Ht0. reflexivity.
+      * intros j Hj. apply Hkd. apply Hkt in Hj. destruct Hj as [Hj|Hj]; [left; exact Hj|right; apply Isub; exact Hj].
+      * intros j z. rewrite ghost3_snoc'. cbn [ghost_step g_new]. unfold ment3. cbn. intros [].
+      * intros j z. rewrite ghost3_snoc'. cbn [ghost_step g_td]. unfold ment3. rewrite proj_app, mentioned_app.
+        intros [H|H]; apply rev_move_mono; [right; apply rev_move_mono; left; apply Ird; exact H|left; apply Irn; exact H].
+      * intros j z. rewrite ghost3_snoc'. cbn [ghost_step g_t]. intros H. apply rev_move_mono. left. apply Ird. exact H.
+      * intros z l [].
+      * apply rev_move_good; [|apply rev_move_good].
+        -- eapply rgood_weaken; [|exact Ign]. intros j Hj. apply Hkd. left. apply Hin_ks. right. exact Hj.
+        -- eapply rgood_weaken; [|exact Igd]. intros j Hj. apply Hkd. right. exact Hj.
+        -- eapply rgood_weaken; [|exact Igt]. intros j Hj. apply Hkd. right. apply Isub. exact Hj.
+      * apply rev_move_good.
+        -- eapply rgood_weaken; [|exact Igd]. intros j Hj. apply Hkt. left. apply Hin_ks. left. exact Hj.
+        -- eapply rgood_weaken; [|exact Igt]. intros j Hj. apply Hkt. right. exact Hj.
+    + (* stratum boundary *)
+      unfold t_restart. constructor; cbn [ts_new ts_delta ts_total t_map t_rev t_empty]; try assumption.
+      * constructor.
+      * constructor.
+      * intros j. rewrite hproj_snoc. cbn [hproj1]. rewrite run_snoc'. cbn [step p_restart eqrel_binary]. rewrite <- Isim. reflexivity.
+      * intros j [].
+      * intros j z. rewrite ghost3_snoc'. cbn [ghost_step g_new]. unfold ment3. cbn. intros [].
+      * intros j z. rewrite ghost3_snoc'. cbn [ghost_step g_td]. apply Irt.
+      * intros j z. rewrite ghost3_snoc'. cbn [ghost_step g_t]. unfold ment3. cbn. intros [].
+      * intros z l [].
+      * intros z l [].
+Qed.
+
+(* ------------------------------------------------------------------ what the views return *)
+Lemma seq_res_map_ok {A B} (f : A -> res B) (g : A -> B) l : (forall a, In a l -> f a = Ok (g a)) -> seq_res (map f l) = Ok (map g l).
+Proof.
+  induction l as [|a l IH]; intros H; cbn [map seq_res]; [reflexivity|].
+  rewrite (H a (or_introl eq_refl)). cbn [bind]. rewrite IH; [reflexivity|]. intros b Hb. apply H. right. exact Hb.
+Qed.
+Lemma concat_filter_single {A} (p : A -> bool) l : concat (map (fun k => if p k then [k] else []) l) = filter p l.
+Proof. induction l as [|a l IH]; cbn [map concat filter]; [reflexivity|]. rewrite IH. destruct (p a); reflexivity. Qed.
+Lemma added_empty x y : ~ added c_empty x y.
+Proof. intros [H _]. exact (erel_empty x y H). Qed.
+Lemma in_map_tup L k x y : In (k, (x, y)) (map tup L) <-> In (k, x, y) L.
+Proof.
+  rewrite in_map_iff. split.
+  - intros [[[k' x'] y'] [E H]]. unfold tup in E. cbn [fst snd] in E. injection E as -> -> ->. exact H.
+  - intros H. exists (k, x, y). split; [reflexivity|exact H].
+Qed.
+
+Section AtState3.
+Variable h : list (pop T3z).
+Let s := run T3z eqrel_ternary h.
+Let I : tinv h s := tinv_run h.
+
+Definition cof (v : ver) (k : Z) : eqc := gd k (t_map (tver s v)).
+Definition A (v : ver) (k x y : Z) : Prop := added (cof v k) x y.
+Definition rl (v : ver) (x : Z) : list Z := rlook x (t_rev (tver s v)).
+Definition sa (v : ver) (k x : Z) : list Z := match c_set_of_added (cof v k) x with Some l => l | None => [] end.
+
+Lemma cof_ver v k : cof v k = ver_of (run T2 eqrel_binary (hproj T2 k h)) v.
+Proof. unfold cof. rewrite <- (ti_sim h s I k). destruct v; reflexivity. Qed.
+Lemma cof_cwf v k : cwf (cof v k).
+Proof. rewrite cof_ver. apply ver_cwf. Qed.
+Lemma A_vrel v k x y : A v k x y <-> vrel (hproj T2 k h) v x y.
+Proof. unfold A. rewrite cof_ver. apply added_vrel. Qed.
+Lemma A_sym v k x y : A v k x y -> A v k y x.
+Proof. apply added_sym. apply cof_cwf. Qed.
+Lemma map_nodup v : NoDup (keys (t_map (tver s v))).
+Proof. destruct v; [exact (ti_nt h s I)|exact (ti_nd h s I)]. Qed.
+Lemma binding_cof v k c : In (k, c) (t_map (tver s v)) -> c = cof v k.
+Proof. intros H. unfold cof. symmetry. apply gd_some. apply nodup_in_zget; [apply map_nodup|exact H]. Qed.
+Lemma A_binding v k x y : A v k x y -> In (k, cof v k) (t_map (tver s v)).
+Proof.
+  intros H. unfold A, cof in *. destruct (zget k (t_map (tver s v))) as [c|] eqn:E.
+  - rewrite (gd_some _ _ _ E). apply zget_some_in. exact E.
+  - rewrite (gd_none _ _ E) in H. destruct (added_empty x y H).
+Qed.
+
+Lemma iter3 v k x y : In (k, x, y) (t_iter_all_added (tver s v)) <-> A v k x y.
+Proof.
+  unfold t_iter_all_added. rewrite in_flat_map. split.
+  - intros [[k' c] [Hb Hin]]. apply in_map_iff in Hin. destruct Hin as [[x' y'] [E Hin]]. cbn [fst snd] in E. injection E as -> -> ->.
+    rewrite (binding_cof v k c Hb) in Hin. apply (c_iter_all_added_spec _ x y (cof_cwf v k)). exact Hin.
+  - intros H. exists (k, cof v k). split; [eapply A_binding; exact H|]. apply in_map_iff. exists (x, y). split; [reflexivity|].
+    apply (c_iter_all_added_spec _ x y (cof_cwf v k)). exact H.
+Qed.
+Lemma read3 v k x y : In (k, (x, y)) (p_read T3z eqrel_ternary s v) <-> A v k x y.
+Proof. cbn [p_read eqrel_ternary]. rewrite in_map_tup. apply iter3. Qed.
+Lemma iter3_nodup v : NoDup (t_iter_all_added (tver s v)).
+Proof.
+  unfold t_iter_all_added. apply NoDup_flat_map_disjoint.
+  - intros [k c] Hb. cbn [fst snd]. apply NoDup_map_inj; [intros [a b] [a' b'] E; injection E as -> ->; reflexivity|].
+    rewrite (binding_cof v k c Hb). apply c_iter_all_added_nodup. apply cof_cwf.
+  - apply nodup_keys_nodup. apply map_nodup.
+  - intros [k c] [k' c'] [[j x] y] Hb Hb' H1 H2. cbn [fst snd] in *.
+    apply in_map_iff in H1. destruct H1 as [p [E1 _]]. apply in_map_iff in H2. destruct H2 as [p' [E2 _]].
+    injection E1 as -> _ _. injection E2 as -> _ _. rewrite (binding_cof v _ c Hb), (binding_cof v _ c' Hb'). reflexivity.
+Qed.
+
+(* the real structure serves exactly what the lifted provider serves *)
+Lemma read3_lift v t : In t (p_read T3z eqrel_ternary s v) <-> In t (p_read T3z eqrel_ternary_lifted (run T3z eqrel_ternary_lifted h) v).
+Proof.
+  destruct t as [k [x y]]. rewrite read3. unfold A. rewrite <- (c_iter_all_added_spec _ x y (cof_cwf v k)), cof_ver.
+  cbn [p_read eqrel_ternary_lifted lift]. rewrite (l_read_in T2 eqrel_binary eqv eqv_closure_op eqrel_binary_provider_ok h v k (x, y)).
+  rewrite l_of_run. reflexivity.
+Qed.
+Lemma served3_lift t : In t (served T3z eqrel_ternary s) <-> In t (served T3z eqrel_ternary_lifted (run T3z eqrel_ternary_lifted h)).
+Proof. unfold served. rewrite !in_app_iff, !read3_lift. reflexivity. Qed.
+Lemma A_served v k x y : A v k x y -> In (k, (x, y)) (served T3z eqrel_ternary s).
+Proof. intros H. unfold served. apply in_or_app. destruct v; [left|right]; apply read3; exact H. Qed.
+
+Lemma contains3 v k x y : t_contains (tver s v) k x y = true <-> A v k x y.
+Proof.
+  unfold t_contains, A, cof. destruct (zget k (t_map (tver s v))) as [c|] eqn:E.
+  - rewrite (gd_some _ _ _ E). apply c_added_contains_spec. rewrite <- (gd_some _ _ _ E). apply cof_cwf.
+  - rewrite (gd_none _ _ E). split; [discriminate|]. intros H. destruct (added_empty x y H).
+Qed.
+
+Lemma sa_spec v k x : NoDup (sa v k x) /\ forall y, In y (sa v k x) <-> A v k x y.
+Proof.
+  unfold sa, A. pose proof (c_set_of_added_spec (cof v k) x (cof_cwf v k)) as H.
+  destruct (c_set_of_added (cof v k) x) as [l|]; [exact H|]. split; [constructor|].
+  intros y. split; [intros []|]. intros [Hc _]. exact (H y Hc).
+Qed.
+
+(* reverse map: complete, every registered key has its structure, the sets are duplicate free *)
+Lemma A_reg v k x y : A v k x y -> In k (rl v x).
+Proof.
+  intros H. apply A_vrel in H. unfold rl.
+  assert (Hm : forall g, eqv_rel g x y -> In x (mentioned g)) by (intros g Hg; apply (eqv_rel_mentioned g x y Hg)).
+  destruct (ghost_proj T2 h k) as [E1 [E2 _]]. destruct v; cbn [vrel tver] in *.
+  - apply (ti_rt h s I). unfold ment3, T3z. rewrite E1. apply Hm. exact H.
+  - apply (ti_rd h s I). unfold ment3, T3z. rewrite E2. apply Hm. apply H.
+Qed.
+Lemma rl_good v x : NoDup (rl v x) /\ forall k, In k (rl v x) -> exists c, zget k (t_map (tver s v)) = Some c /\ c = cof v k.
+Proof.
+  unfold rl, rlook. destruct (zget x (t_rev (tver s v))) as [l|] eqn:E; [|split; [constructor|intros k []]].
+  apply zget_some_in in E.
+  assert (G : rgood (t_rev (tver s v)) (fun k => In k (keys (t_map (tver s v))))) by (destruct v; [exact (ti_gt h s I)|exact (ti_gd h s I)]).
+  destruct (G x l E) as [Hn Hp]. split; [exact Hn|]. intros k Hk. apply Hp in Hk. apply in_keys_some in Hk. destruct Hk as [c Hc].
+  exists c. split; [exact Hc|]. unfold cof. symmetry. apply gd_some. exact Hc.
+Qed.
+
+Definition row1 (v : ver) (x : Z) : list (Z * Z) := flat_map (fun k => map (pair k) (sa v k x)) (rl v x).
+Lemma row1_in v x k y : In (k, y) (row1 v x) <-> A v k x y.
+Proof.
+  unfold row1. rewrite in_flat_map. split.
+  - intros [k' [Hk H]]. apply in_map_iff in H. destruct H as [y' [E Hy]]. injection E as -> ->. apply (sa_spec v k x). exact Hy.
+  - intros H. exists k. split; [eapply A_reg; exact H|]. apply in_map. apply (sa_spec v k x). exact H.
+Qed.
+Lemma row1_nodup v x : NoDup (row1 v x).
+Proof.
+  unfold row1. apply NoDup_flat_map_disjoint.
+  - intros k _. apply NoDup_map_inj; [intros a b E; injection E as ->; reflexivity|apply sa_spec].
+  - apply rl_good.
+  - intros k k' [j y] _ _ H1 H2. apply in_map_iff in H1. apply in_map_iff in H2. destruct H1 as [a [E1 _]]. destruct H2 as [b [E2 _]].
+    injection E1 as -> _. injection E2 as -> _. reflexivity.
+Qed.
+
+Lemma ind1_get_char v x : tv_ind1_get (tver s v) x = option_map (fun _ => Ok (row1 v x)) (zget x (t_rev (tver s v))).
+Proof.
+  unfold tv_ind1_get. destruct (zget x (t_rev (tver s v))) as [ks|] eqn:E; cbn [option_map]; [|reflexivity].
+  assert (Hks : ks = rl v x) by (unfold rl, rlook; rewrite E; reflexivity).
+  rewrite (seq_res_map_ok _ (fun k => map (pair k) (sa v k x)) ks).
+  - cbn [bind]. unfold row1. rewrite <- Hks, flat_map_concat_map. reflexivity.
+  - intros k Hk. rewrite Hks in Hk. destruct (proj2 (rl_good v x) k Hk) as [c [Hc ->]]. rewrite Hc. reflexivity.
+Qed.
+Lemma ind1_all_char v : tv_ind1_all (tver s v) = Ok (map (fun xk => (fst xk, row1 v (fst xk))) (t_rev (tver s v))).
+Proof.
+  unfold tv_ind1_all. apply seq_res_map_ok. intros [x l] Hb. cbn [fst]. rewrite ind1_get_char.
+  destruct (zget x (t_rev (tver s v))) as [l0|] eqn:E; [reflexivity|]. apply zget_none_keys in E. exfalso. apply E.
+  apply in_map_iff. exists (x, l). split; [reflexivity|exact Hb].
+Qed.
+Lemma ind12_get_char v x y : tv_ind12_get (tver s v) x y
+  = option_map (fun _ => Ok (filter (fun k => c_added_contains (cof v k) x y) (rl v x))) (zget x (t_rev (tver s v))).
+Proof.
+  unfold tv_ind12_get. destruct (zget x (t_rev (tver s v))) as [ks|] eqn:E; cbn [option_map]; [|reflexivity].
+  assert (Hks : ks = rl v x) by (unfold rl, rlook; rewrite E; reflexivity).
+  rewrite (seq_res_map_ok _ (fun k => if c_added_contains (cof v k) x y then [k] else []) ks).
+  - cbn [bind]. rewrite concat_filter_single, Hks. reflexivity.
+  - intros k Hk. rewrite Hks in Hk. destruct (proj2 (rl_good v x) k Hk) as [c [Hc ->]]. rewrite Hc. reflexivity.
+Qed.
+Lemma rl_some v x k : In k (rl v x) -> exists l, zget x (t_rev (tver s v)) = Some l.
+Proof. unfold rl, rlook. destruct (zget x (t_rev (tver s v))) as [l|]; [intros _; exists l; reflexivity|intros []]. Qed.
+End AtState3.
+
+(* ------------------------------------------------------------------ the laws *)
+Notation RUN h := (run T3z eqrel_ternary h).
+Notation READ h v := (p_read T3z eqrel_ternary (run T3z eqrel_ternary h) v).
+
+Ltac sel_eqs H := cbn [tsel fst snd] in H; repeat rewrite andb_true_iff in H; repeat rewrite Z.eqb_eq in H.
+
+Lemma ind01_char h v k x : tv_ind01_get (tver (RUN h) v) k x = c_set_of_added (cof h v k) x.
+Proof.
+  unfold tv_ind01_get, cof. destruct (zget k (t_map (tver (RUN h) v))) as [c|] eqn:E.
+  - rewrite (gd_some _ _ _ E). reflexivity.
+  - rewrite (gd_none _ _ E). reflexivity.
+Qed.
+Lemma tup_inj a b : tup a = tup b -> a = b.
+Proof. destruct a as [[k x] y], b as [[k' x'] y']. unfold tup. cbn [fst snd]. intros E. injection E as -> -> ->. reflexivity. Qed.
+
+Lemma tget_char h v vk :
+  match tget (RUN h) v vk with
+  | Some l => NoDup l /\ forall t, In t l <-> (tsel vk t = true /\ In t (READ h v))
+  | None => forall t, tsel vk t = true -> ~ In t (READ h v)
+  end.
+Proof.
+  destruct vk as [k x y| |k|k x|k y|x|y|x y]; cbn [tget].
+  - unfold tv_full_get. destruct (t_contains (tver (RUN h) v) k x y) eqn:E; cbn [option_map map].
+    + split; [constructor; [intros []|constructor]|]. intros [k' [x' y']]. cbn [In]. split.
+      * intros [E'|[]]. injection E' as <- <- <-. cbn [tsel fst snd]. rewrite !Z.eqb_refl. split; [reflexivity|].
+        apply read3, contains3. exact E.
+      * intros [Hs _]. sel_eqs Hs. destruct Hs as [[-> ->] ->]. left. reflexivity.
+    + intros [k' [x' y']] Hs Hin. sel_eqs Hs. destruct Hs as [[-> ->] ->]. apply read3, contains3 in Hin. congruence.
+  - unfold tv_none_get. cbn [option_map]. split.
+    + apply NoDup_map_inj; [exact tup_inj|apply iter3_nodup].
+    + intros t. cbn [tsel p_read eqrel_ternary]. tauto.
+  - unfold tv_ind0_get. destruct (zget k (t_map (tver (RUN h) v))) as [c|] eqn:E; cbn [option_map].
+    + assert (Hc : c = cof h v k) by (unfold cof; rewrite (gd_some _ _ _ E); reflexivity). subst c. split.
+      * apply NoDup_map_inj; [intros a b E'; injection E' as ->; reflexivity|apply c_iter_all_added_nodup, cof_cwf].
+      * intros [k' [x y]]. rewrite in_map_iff. split.
+        -- intros [[x' y'] [E' Hin]]. injection E' as <- <- <-. cbn [tsel fst]. rewrite Z.eqb_refl. split; [reflexivity|].
+           apply read3. apply (c_iter_all_added_spec _ x' y' (cof_cwf h v k)). exact Hin.
+        -- intros [Hs Hin]. sel_eqs Hs. subst k'. exists (x, y). split; [reflexivity|].
+           apply (c_iter_all_added_spec _ x y (cof_cwf h v k)). apply read3 in Hin. exact Hin.
+    + intros [k' [x y]] Hs Hin. sel_eqs Hs. subst k'. apply read3 in Hin. unfold A, cof in Hin. rewrite (gd_none _ _ E) in Hin.
+      exact (added_empty x y Hin).
+  - rewrite ind01_char. pose proof (c_set_of_added_spec (cof h v k) x (cof_cwf h v k)) as Hs.
+    destruct (c_set_of_added (cof h v k) x) as [l|]; cbn [option_map].
+    + destruct Hs as [Hn Hl]. split; [apply NoDup_map_inj; [intros a b E'; injection E' as ->; reflexivity|exact Hn]|].
+      intros [k' [x' y]]. rewrite in_map_iff. split.
+      * intros [y' [E' Hin]]. injection E' as <- <- <-. cbn [tsel fst snd]. rewrite !Z.eqb_refl. split; [reflexivity|]. apply read3, Hl. exact Hin.
+      * intros [Hsel Hin]. sel_eqs Hsel. destruct Hsel as [-> ->]. exists y. split; [reflexivity|]. apply Hl. apply read3 in Hin. exact Hin.
+    + intros [k' [x' y]] Hsel Hin. sel_eqs Hsel. destruct Hsel as [-> ->]. apply read3 in Hin. destruct Hin as [Hc _]. exact (Hs y Hc).
+  - rewrite ind01_char. pose proof (c_set_of_added_spec (cof h v k) y (cof_cwf h v k)) as Hs.
+    destruct (c_set_of_added (cof h v k) y) as [l|]; cbn [option_map].
+    + destruct Hs as [Hn Hl]. split; [apply NoDup_map_inj; [intros a b E'; injection E' as ->; reflexivity|exact Hn]|].
+      intros [k' [x y']]. rewrite in_map_iff. split.
+      * intros [x' [E' Hin]]. injection E' as <- <- <-. cbn [tsel fst snd]. rewrite !Z.eqb_refl. split; [reflexivity|].
+        apply read3, A_sym. apply Hl. exact Hin.
+      * intros [Hsel Hin]. sel_eqs Hsel. destruct Hsel as [-> ->]. exists x. split; [reflexivity|]. apply Hl. apply read3, A_sym in Hin. exact Hin.
+    + intros [k' [x y']] Hsel Hin. sel_eqs Hsel. destruct Hsel as [-> ->]. apply read3, A_sym in Hin. destruct Hin as [Hc _]. exact (Hs x Hc).
+  - rewrite ind1_get_char. destruct (zget x (t_rev (tver (RUN h) v))) as [l0|] eqn:E; cbn [option_map].
+    + split; [apply NoDup_map_inj; [intros [a b] [a' b'] E'; cbn [fst snd] in E'; injection E' as -> ->; reflexivity|apply row1_nodup]|].
+      intros [k [x' y]]. rewrite in_map_iff. split.
+      * intros [[k' y'] [E' Hin]]. cbn [fst snd] in E'. injection E' as <- <- <-. cbn [tsel fst snd]. rewrite Z.eqb_refl. split; [reflexivity|].
+        apply read3. apply row1_in. exact Hin.
+      * intros [Hsel Hin]. sel_eqs Hsel. subst x'. exists (k, y). split; [reflexivity|]. apply row1_in. apply read3 in Hin. exact Hin.
+    + intros [k [x' y]] Hsel Hin. sel_eqs Hsel. subst x'. apply read3, A_reg, rl_some in Hin. destruct Hin as [l Hl]. congruence.
+  - rewrite ind1_get_char. destruct (zget y (t_rev (tver (RUN h) v))) as [l0|] eqn:E; cbn [option_map].
+    + split; [apply NoDup_map_inj; [intros [a b] [a' b'] E'; cbn [fst snd] in E'; injection E' as -> ->; reflexivity|apply row1_nodup]|].
+      intros [k [x y']]. rewrite in_map_iff. split.
+      * intros [[k' x'] [E' Hin]]. cbn [fst snd] in E'. injection E' as <- <- <-. cbn [tsel fst snd]. rewrite Z.eqb_refl. split; [reflexivity|].
+        apply read3, A_sym. apply row1_in. exact Hin.
+      * intros [Hsel Hin]. sel_eqs Hsel. subst y'. exists (k, x). split; [reflexivity|]. apply row1_in. apply read3, A_sym in Hin. exact Hin.
+    + intros [k [x y']] Hsel Hin. sel_eqs Hsel. subst y'. apply read3, A_sym, A_reg, rl_some in Hin. destruct Hin as [l Hl]. congruence.
+  - rewrite ind12_get_char. destruct (zget x (t_rev (tver (RUN h) v))) as [l0|] eqn:E; cbn [option_map].
+    + split; [apply NoDup_map_inj; [intros a b E'; injection E' as ->; reflexivity|apply NoDup_filter, rl_good]|].
+      intros [k [x' y']]. rewrite in_map_iff. split.
+      * intros [k' [E' Hin]]. injection E' as <- <- <-. cbn [tsel fst snd]. rewrite !Z.eqb_refl. split; [reflexivity|].
+        apply filter_In in Hin. destruct Hin as [_ Hc]. apply read3. apply (c_added_contains_spec _ x y (cof_cwf h v k')). exact Hc.
+      * intros [Hsel Hin]. sel_eqs Hsel. destruct Hsel as [-> ->]. exists k. split; [reflexivity|]. apply read3 in Hin.
+        apply filter_In. split; [eapply A_reg; exact Hin|]. apply (c_added_contains_spec _ x y (cof_cwf h v k)). exact Hin.
+    + intros [k [x' y']] Hsel Hin. sel_eqs Hsel. destruct Hsel as [-> ->]. apply read3, A_reg, rl_some in Hin. destruct Hin as [l Hl]. congruence.
+Qed.
+
+Lemma tall_sound h v ix vk l t : In (vk, l) (tall (RUN h) v ix) -> In t l -> tix_of vk = ix /\ tsel vk t = true /\ In t (READ h v).
+Proof.
+  destruct ix; cbn [tall]; intros He Hin.
+  - apply in_map_iff in He. destruct He as [[[[k x] y] us] [E He]]. cbn [fst snd] in E. injection E as <- <-.
+    unfold tv_full_all in He. apply in_map_iff in He. destruct He as [p [E Hp]]. injection E as E1 E2. subst p us.
+    cbn [map] in Hin. destruct Hin as [<-|[]]. split; [reflexivity|]. unfold tup. cbn [tsel fst snd]. rewrite !Z.eqb_refl.
+    split; [reflexivity|]. apply read3, iter3. exact Hp.
+  - unfold tv_none_get in He. destruct He as [E|[]]. injection E as <- <-. split; [reflexivity|]. split; [reflexivity|exact Hin].
+  - apply in_map_iff in He. destruct He as [[k l0] [E He]]. cbn [fst snd] in E. injection E as <- <-.
+    unfold tv_ind0_all in He. apply in_map_iff in He. destruct He as [[k' c] [E Hb]]. cbn [fst snd] in E. injection E as -> <-.
+    apply in_map_iff in Hin. destruct Hin as [[x y] [<- Hin]]. split; [reflexivity|]. cbn [tsel fst]. rewrite Z.eqb_refl. split; [reflexivity|].
+    apply read3. rewrite (binding_cof h v k c Hb) in Hin. apply (c_iter_all_added_spec _ x y (cof_cwf h v k)). exact Hin.
+  - apply in_map_iff in He. destruct He as [[[k x] l0] [E He]]. cbn [fst snd] in E. injection E as <- <-.
+    unfold tv_ind01_all in He. apply in_flat_map in He. destruct He as [[k' c] [Hb He]]. apply in_map_iff in He.
+    destruct He as [[x' y'] [E Hp]]. cbn [fst snd] in E. injection E as -> -> <-. cbn [map] in Hin. destruct Hin as [<-|[]].
+    split; [reflexivity|]. cbn [tsel fst snd]. rewrite !Z.eqb_refl. split; [reflexivity|].
+    apply read3. rewrite (binding_cof h v k c Hb) in Hp. apply (c_iter_all_added_spec _ x y' (cof_cwf h v k)). exact Hp.
+  - apply in_map_iff in He. destruct He as [[[k a] l0] [E He]]. cbn [fst snd] in E. injection E as <- <-.
+    unfold tv_ind01_all in He. apply in_flat_map in He. destruct He as [[k' c] [Hb He]]. apply in_map_iff in He.
+    destruct He as [[a' b'] [E Hp]]. cbn [fst snd] in E. injection E as -> -> <-. cbn [map] in Hin. destruct Hin as [<-|[]].
+    split; [reflexivity|]. cbn [tsel fst snd]. rewrite !Z.eqb_refl. split; [reflexivity|].
+    apply read3, A_sym. rewrite (binding_cof h v k c Hb) in Hp. apply (c_iter_all_added_spec _ a b' (cof_cwf h v k)). exact Hp.
+  - rewrite ind1_all_char in He. apply in_map_iff in He. destruct He as [[x r] [E He]]. cbn [fst snd] in E. injection E as <- <-.
+    apply in_map_iff in He. destruct He as [[x' l0] [E _]]. cbn [fst] in E. injection E as -> <-.
+    apply in_map_iff in Hin. destruct Hin as [[k y] [<- Hin]]. cbn [fst snd]. split; [reflexivity|]. cbn [tsel fst snd]. rewrite Z.eqb_refl.
+    split; [reflexivity|]. apply read3, row1_in. exact Hin.
+  - rewrite ind1_all_char in He. apply in_map_iff in He. destruct He as [[y r] [E He]]. cbn [fst snd] in E. injection E as <- <-.
+    apply in_map_iff in He. destruct He as [[y' l0] [E _]]. cbn [fst] in E. injection E as -> <-.
+    apply in_map_iff in Hin. destruct Hin as [[k x] [<- Hin]]. cbn [fst snd]. split; [reflexivity|]. cbn [tsel fst snd]. rewrite Z.eqb_refl.
+    split; [reflexivity|]. apply read3, A_sym, row1_in. exact Hin.
+  - apply in_map_iff in He. destruct He as [[[x y] l0] [E He]]. cbn [fst snd] in E. injection E as <- <-.
+    unfold tv_ind12_all in He. apply in_flat_map in He. destruct He as [[x' kx] [_ He]]. apply in_map_iff in He.
+    destruct He as [[y' ky] [E _]]. cbn [fst snd] in E. injection E as -> -> <-.
+    apply in_map_iff in Hin. destruct Hin as [k [<- Hin]]. split; [reflexivity|]. cbn [tsel fst snd]. rewrite !Z.eqb_refl. split; [reflexivity|].
+    apply filter_In in Hin. destruct Hin as [_ Hc]. apply andb_true_iff in Hc. apply read3, contains3. apply Hc.
+Qed.
+
+Lemma tall_complete h v vk t : In t (READ h v) -> tsel vk t = true -> exists l, In (vk, l) (tall (RUN h) v (tix_of vk)) /\ In t l.
+Proof.
+  destruct t as [k [x y]]. intros Hin Hsel. pose proof Hin as Hr. apply read3 in Hin.
+  destruct vk as [k' x' y'| |k'|k' x'|k' y'|x'|y'|x' y']; sel_eqs Hsel; cbn [tall tix_of].
+  - destruct Hsel as [[-> ->] ->]. exists [(k', (x', y'))]. split; [|left; reflexivity]. apply in_map_iff.
+    exists ((k', x', y'), [tt]). split; [reflexivity|]. unfold tv_full_all. apply in_map_iff. exists (k', x', y'). split; [reflexivity|]. apply iter3. exact Hin.
+  - unfold tv_none_get. eexists. split; [left; reflexivity|exact Hr].
+  - subst k'. exists (map (fun p => (k, p)) (c_iter_all_added (cof h v k))). split.
+    + apply in_map_iff. exists (k, c_iter_all_added (cof h v k)). split; [reflexivity|]. unfold tv_ind0_all.
+      apply in_map_iff. exists (k, cof h v k). split; [reflexivity|eapply A_binding; exact Hin].
+    + apply in_map_iff. exists (x, y). split; [reflexivity|]. apply (c_iter_all_added_spec _ x y (cof_cwf h v k)). exact Hin.
+  - destruct Hsel as [-> ->]. exists [(k', (x', y))]. split; [|left; reflexivity]. apply in_map_iff.
+    exists ((k', x'), [y]). split; [reflexivity|]. unfold tv_ind01_all. apply in_flat_map. exists (k', cof h v k').
+    split; [eapply A_binding; exact Hin|]. apply in_map_iff. exists (x', y). split; [reflexivity|].
+    apply (c_iter_all_added_spec _ x' y (cof_cwf h v k')). exact Hin.
+  - destruct Hsel as [-> ->]. exists [(k', (x, y'))]. split; [|left; reflexivity]. apply in_map_iff.
+    exists ((k', y'), [x]). split; [reflexivity|]. unfold tv_ind01_all. apply in_flat_map. exists (k', cof h v k').
+    split; [eapply A_binding; exact Hin|]. apply in_map_iff. exists (y', x). split; [reflexivity|].
+    apply (c_iter_all_added_spec _ y' x (cof_cwf h v k')). apply A_sym. exact Hin.
+  - subst x'. rewrite ind1_all_char. destruct (rl_some h v x k (A_reg h v k x y Hin)) as [l0 Hl0].
+    exists (map (fun ky => (fst ky, (x, snd ky))) (row1 h v x)). split.
+    + apply in_map_iff. exists (x, row1 h v x). split; [reflexivity|]. apply in_map_iff. exists (x, l0). split; [reflexivity|apply zget_some_in; exact Hl0].
+    + apply in_map_iff. exists (k, y). split; [reflexivity|]. apply row1_in. exact Hin.
+  - subst y'. rewrite ind1_all_char. apply A_sym in Hin. destruct (rl_some h v y k (A_reg h v k y x Hin)) as [l0 Hl0].
+    exists (map (fun kx => (fst kx, (snd kx, y))) (row1 h v y)). split.
+    + apply in_map_iff. exists (y, row1 h v y). split; [reflexivity|]. apply in_map_iff. exists (y, l0). split; [reflexivity|apply zget_some_in; exact Hl0].
+    + apply in_map_iff. exists (k, x). split; [reflexivity|]. apply row1_in. exact Hin.
+  - destruct Hsel as [-> ->]. pose proof (A_reg h v k x' y' Hin) as Hkx. pose proof (A_reg h v k y' x' (A_sym h v k x' y' Hin)) as Hky.
+    destruct (rl_some h v x' k Hkx) as [lx Hlx]. destruct (rl_some h v y' k Hky) as [ly Hly].
+    assert (Ex : lx = rl h v x') by (unfold rl, rlook; rewrite Hlx; reflexivity).
+    assert (Ey : ly = rl h v y') by (unfold rl, rlook; rewrite Hly; reflexivity).
+    exists (map (fun k0 => (k0, (x', y'))) (filter (fun k0 => zmem k0 ly && t_contains (tver (RUN h) v) k0 x' y') lx)). split.
+    + apply in_map_iff. exists ((x', y'), filter (fun k0 => zmem k0 ly && t_contains (tver (RUN h) v) k0 x' y') lx). split; [reflexivity|].
+      unfold tv_ind12_all. apply in_flat_map. exists (x', lx). split; [apply zget_some_in; exact Hlx|].
+      apply in_map_iff. exists (y', ly). split; [reflexivity|apply zget_some_in; exact Hly].
+    + apply in_map_iff. exists k. split; [reflexivity|]. apply filter_In. split; [rewrite Ex; exact Hkx|].
+      apply andb_true_iff. split; [apply zmem_spec; rewrite Ey; exact Hky|apply contains3; exact Hin].
+Qed.
+
+(* ------------------------------------------------------------------ the theorems *)
+Theorem eqrel_ternary_provider_ok : provider_ok T3z eqrel_ternary eqv3.
+Proof.
+  pose proof eqrel_ternary_lifted_ok as L.
+  constructor.
+  - (* P1 *)
+    intros h [k [x y]] s'. cbn [p_ins eqrel_ternary]. unfold tins. cbn [fst snd]. intros E. injection E as _ Hb.
+    destruct (t_insert_char (ts_new (RUN h)) k x y) as [_ E2]. rewrite E2 in Hb.
+    apply (cl3_in T2 eqv eqv_closure_op). destruct (ghost_proj T2 h k) as [_ [_ E3]]. unfold T3z. rewrite E3.
+    apply (ok_P1 T2 eqrel_binary eqv eqrel_binary_provider_ok (hproj T2 k h) (x, y) (fst (b_insert (run T2 eqrel_binary (hproj T2 k h)) x y))).
+    cbn [p_ins eqrel_binary fst snd]. rewrite <- (ti_sim h _ (tinv_run h) k). unfold b_insert, ksb. cbn [b_new b_delta b_total].
+    change (gd k (t_map (ts_new (RUN h)))) with (gd k (t_map (ts_new (RUN h)))) in *.
+    destruct (c_insert (gd k (t_map (ts_new (RUN h)))) x y) as [c' b]. cbn [snd] in Hb. subst b. reflexivity.
+  - intros h. destruct (ok_P2 T3z _ eqv3 L h) as [H1 H2]. split; intros t Ht; [apply H1, served3_lift|apply served3_lift, H2]; exact Ht.
+  - intros h. destruct (ok_P3 T3z _ eqv3 L h) as [H1 H2]. split; intros t Ht; [apply H1, (read3_lift h VTotal)|apply (read3_lift h VTotal), H2]; exact Ht.
+  - intros h v vk t Hin Hsel. pose proof (tget_char h v vk) as H. cbn [p_get eqrel_ternary].
+    destruct (tget (RUN h) v vk) as [l|]; [|exfalso; exact (H t Hsel Hin)]. exists l. split; [reflexivity|]. apply H. split; assumption.
+  - intros h v vk l t Hg Hin. cbn [p_get eqrel_ternary] in Hg. pose proof (tget_char h v vk) as H. rewrite Hg in H.
+    destruct H as [_ H]. apply H in Hin. destruct Hin as [Hs Hr]. split; [exact Hs|]. unfold served. apply in_or_app. destruct v; [left|right]; exact Hr.
+  - intros h v vk t. apply tall_complete.
+  - intros h v ix vk l t He Hin. destruct (tall_sound h v ix vk l t He Hin) as [H1 [H2 H3]]. split; [exact H1|]. split; [exact H2|].
+    unfold served. apply in_or_app. destruct v; [left|right]; exact H3.
+  - intros h vk l Hg. cbn [p_get eqrel_ternary] in Hg. pose proof (tget_char h VTotal vk) as H. rewrite Hg in H. apply H.
+  - intros h v [k [x y]]. cbn [p_contains eqrel_ternary fst snd]. rewrite contains3, read3. reflexivity.
+Qed.
+
+(* no Option::unwrap on None in the reverse-map views, on any reachable state *)
+Theorem eqrel_ternary_never_panics h v :
+  (forall x, exists l, tv_ind1_get (tver (RUN h) v) x = None \/ tv_ind1_get (tver (RUN h) v) x = Some (Ok l))
+  /\ (exists l, tv_ind1_all (tver (RUN h) v) = Ok l)
+  /\ (forall x y, exists l, tv_ind12_get (tver (RUN h) v) x y = None \/ tv_ind12_get (tver (RUN h) v) x y = Some (Ok l)).
+Proof.
+  split; [|split].
+  - intros x. rewrite ind1_get_char. destruct (zget x (t_rev (tver (RUN h) v))); cbn [option_map]; [eexists; right; reflexivity|exists []; left; reflexivity].
+  - rewrite ind1_all_char. eexists. reflexivity.
+  - intros x y. rewrite ind12_get_char. destruct (zget x (t_rev (tver (RUN h) v))); cbn [option_map]; [eexists; right; reflexivity|exists []; left; reflexivity].
+Qed.
+
+Print Assumptions eqrel_ternary_provider_ok.
+Print Assumptions eqrel_ternary_never_panics.
